@@ -136,6 +136,11 @@ func cmdC03(r *RNG, n int, e *Emitter, args []string) {
 	calls := 0
 	for i := 0; i < n; i++ {
 		s, c := genHostilePaths(r), genHostilePaths(r)
+		if i%9 == 4 {
+			// rectangle soups of 4-6 rectangles a side on a coarse lattice: many horizontal joins and splits (the tree
+			// builders walk the split lists of the records those leave behind)
+			s, c = genRectSoup(r, 96, 4+r.Intn(3)), genRectSoup(r, 96, 4+r.Intn(3))
+		}
 		open := genHostilePaths(r)
 		ct := clip.ClipType(r.Intn(7)) // includes NoClip and out-of-range values
 		fr := clip.FillRule(r.Intn(6)) // includes out-of-range values
